@@ -2,7 +2,7 @@
 # usage: tools/shadow.sh  - (re)creates an isolated copy of /repo and /verif under /tmp/fvshadow so that seeded changes can be
 # evaluated without touching /repo (e.g. while thorough checks run on the real tree). Nothing registered in MANIFEST.json uses it.
 set -e
-S=/tmp/fvshadow
+S=${FVSHADOW:-/tmp/fvshadow}
 mkdir -p $S
 if [ ! -d $S/repo/.git ]; then git clone -q /repo $S/repo; fi
 git -C $S/repo fetch -q origin 2>/dev/null || true
